@@ -282,7 +282,18 @@ def _r12h(rep):
         ag = [x for x in loop[0].body if isinstance(x, ast.AugAssign) and core.src(x.target) == "pos"]
         if len(st) == 1 and len(ag) == 1 and isinstance(st[0].targets[0].slice, ast.Slice):
             sl = st[0].targets[0].slice
-            ok_pos = core.src(sl.lower) == "pos" and symalg.same(symalg.open_expr(core.src(sl.upper)), symalg.open_expr(f"pos + len({v})"))[0] and isinstance(ag[0].op, ast.Add) and core.src(ag[0].value) == f"len({v})" and symalg.same(symalg.open_expr(core.src(st[0].value)), symalg.open_expr(f"self._perturb_D(ddms, eigvecs[:, {v}])"))[0]
+            # locals of the loop body that only name a value (n_deg = len(deg)) are read through
+            inl = {x.targets[0].id: core.src(x.value) for x in loop[0].body if isinstance(x, ast.Assign) and len(x.targets) == 1 and isinstance(x.targets[0], ast.Name) and x.targets[0].id != "pos"}
+
+            def _thru(txt):
+                import re as _re
+
+                for _ in range(3):
+                    for nm_, val_ in inl.items():
+                        txt = _re.sub(rf"\b{_re.escape(nm_)}\b", f"({val_})", txt)
+                return txt
+
+            ok_pos = core.src(sl.lower) == "pos" and symalg.same(symalg.open_expr(_thru(core.src(sl.upper))), symalg.open_expr(f"pos + len({v})"))[0] and isinstance(ag[0].op, ast.Add) and symalg.same(symalg.open_expr(_thru(core.src(ag[0].value))), symalg.open_expr(f"len({v})"))[0] and symalg.same(symalg.open_expr(_thru(core.src(st[0].value))), symalg.open_expr(f"self._perturb_D(ddms, eigvecs[:, {v}])"))[0]
             init = [x for x in cq.body if isinstance(x, ast.Assign) and core.src(x.targets[0]) == "pos"]
             ok_pos = ok_pos and len(init) == 1 and core.src(init[0].value) == "0"
     rep.instance("R12h", GV, f"{G}._calculate_group_velocity_at_q", "gv[pos : pos + len(deg)] = perturb(ddms, eigvecs[:, deg]); pos += len(deg)", ok_pos, "the velocities of a degenerate set are not stored at the positions of its bands", line=cq.lineno)
@@ -730,6 +741,8 @@ def selftest():
     b = lambda name, file, old, new, rule, expect="", **kw: V.append(dict(name=name, kind="break", file=file, old=old, new=new, rule=rule, expect=expect, **kw))
     n = lambda name, file, old, new, **kw: V.append(dict(name=name, kind="neutral", file=file, old=old, new=new, **kw))
     DDMC_ = "c/derivative_dynmat.c"
+    b("degenerate sets below the cutoff skipped before the row offset advances", GV, "        for deg in deg_sets:\n            gv[pos : pos + len(deg)] = self._perturb_D(ddms, eigvecs[:, deg])\n            pos += len(deg)", "        for deg in deg_sets:\n            if freqs[deg[-1]] <= self._cutoff_frequency:\n                continue\n            gv[pos : pos + len(deg)] = self._perturb_D(ddms, eigvecs[:, deg])\n            pos += len(deg)", "R12y.offset", "_calculate_group_velocity_at_q")
+    n("row offset advanced through a local holding the size of the set", GV, "        for deg in deg_sets:\n            gv[pos : pos + len(deg)] = self._perturb_D(ddms, eigvecs[:, deg])\n            pos += len(deg)", "        for deg in deg_sets:\n            n_deg = len(deg)\n            gv[pos : pos + n_deg] = self._perturb_D(ddms, eigvecs[:, deg])\n            pos += n_deg")
     b("derivative driver computes the upper triangle of pairs only", DDMC_, "            for (j = 0; j < num_patom; j++) {\n                get_derivative_dynmat_at_q(derivative_dynmat, i, j, ddnac, dnac,", "            for (j = i; j < num_patom; j++) {\n                get_derivative_dynmat_at_q(derivative_dynmat, i, j, ddnac, dnac,", "R12o", "ddm_get_derivative_dynmat_at_q")
     n("derivative driver: serial arm flattened like the parallel one", DDMC_, "        for (i = 0; i < num_patom; i++) {\n            for (j = 0; j < num_patom; j++) {\n                get_derivative_dynmat_at_q(derivative_dynmat, i, j, ddnac, dnac,\n                                           is_nac, num_patom, num_satom, fc, q,\n                                           lattice, svecs, multi, mass, s2p_map,\n                                           p2s_map);\n            }\n        }", "        for (ij = 0; ij < num_patom * num_patom; ij++) {\n            j = ij / num_patom;\n            i = ij % num_patom;\n            get_derivative_dynmat_at_q(derivative_dynmat, i, j, ddnac, dnac,\n                                       is_nac, num_patom, num_satom, fc, q,\n                                       lattice, svecs, multi, mass, s2p_map,\n                                       p2s_map);\n        }")
     b("Grueneisen mesh receives the compressed crystal as dynmat_plus", "phonopy/api_gruneisen.py", "            self._phonon_plus.dynamical_matrix,\n            self._phonon_minus.dynamical_matrix,\n            mesh,", "            self._phonon_minus.dynamical_matrix,\n            self._phonon_plus.dynamical_matrix,\n            mesh,", "R12n", "set_mesh")
